@@ -61,7 +61,7 @@ def c03(ck):
     key = lambda e: json.dumps(e.get("bytes"))
     ck.trace("enum", "hsms-enum", ["-n", n, "-in", table], "TraceCodec", "TraceCodec.cfg", ["InvC03"],
              agree=["InvAgreeDecoder"], trace_path=path, stats=st, nontrivial=nt, key=key)
-    ck.trace("corrupt", "corrupt", ["-n", q(ck, 30, 1500)], "TraceCodec", "TraceCodec.cfg", ["InvC03", "InvC13"],
+    ck.trace("corrupt", "corrupt", ["-n", q(ck, 30, 250)], "TraceCodec", "TraceCodec.cfg", ["InvC03", "InvC13"],
              agree=["InvAgreeDecoder"], nontrivial=nt, key=key)
     ck.assumptions += ["TLC explores the decoder model exhaustively only inside the stated scope",
                        "the harness projection (zz_verif.go, proj.go) reports the stored representation faithfully",
@@ -84,7 +84,7 @@ def _codec_common(ck, props, label_rule):
     if ck.violations:
         return
     # Go -> TLC: random messages built by factories, life cycle, fill, SML parser, HSMS decoder
-    ck.trace("rt", "rt", ["-n", q(ck, 1500, 40000)], "TraceCodec", "TraceCodec.cfg", props,
+    ck.trace("rt", "rt", ["-n", q(ck, 1500, 12000)], "TraceCodec", "TraceCodec.cfg", props,
              agree=["InvAgreeDecoder"], nontrivial=nt, key=key)
     ck.assumptions += ["float bit patterns are supplied by math.Float32bits/Float64bits in the harness (trusted)",
                        "the projection (zz_verif.go, proj.go) reports the stored representation faithfully",
@@ -160,7 +160,7 @@ def c13(ck):
     if ck.violations:
         return
     # element counts around 255|256 with random values, through the ordinary round-trip events
-    ck.trace("rt", "rt", ["-n", q(ck, 400, 4000)], "TraceCodec", "TraceCodec.cfg", ["InvC13"])
+    ck.trace("rt", "rt", ["-n", q(ck, 400, 3000)], "TraceCodec", "TraceCodec.cfg", ["InvC13"])
     ck.assumptions += ["run-length compression and big-endian decoding of the length bytes in the harness are trusted plumbing",
                        "TLC 32-bit integers suffice: the largest product is 2,097,168 * 8"]
 
@@ -225,7 +225,7 @@ ITEMS_NOTE = ("the projection (zz_verif.go) is trusted to report the stored repr
 def c16(ck):
     ck.rule.append("random item trees to depth 4 (all 14 formats, list-level variables, array variables, ASCII variables with bounds, "
                    "numbered ellipses) and messages on them; non-trivial = has at least one variable; distinct by projection")
-    ck.trace("snap", "snap", ["-n", q(ck, 1500, 30000)], "TraceItems", "TraceItems.cfg", ["InvC16"], agree=["InvAgreeC16"],
+    ck.trace("snap", "snap", ["-n", q(ck, 1500, 15000)], "TraceItems", "TraceItems.cfg", ["InvC16"], agree=["InvAgreeC16"],
              nontrivial=lambda e: len(e.get("vars", [])) > 0, key=lambda e: json.dumps(e.get("abs"), sort_keys=True))
     ck.assumptions.append(ITEMS_NOTE)
 
@@ -240,7 +240,7 @@ def c16(ck):
 def c09(ck):
     ck.rule.append("random templates to depth 4 x random assignments x random splits into 1..4 fills; about one case in five carries an "
                    "out-of-domain value; non-trivial = template has a variable that sigma mentions; distinct by (template, sigma)")
-    ck.trace("fill", "fill", ["-n", q(ck, 1500, 30000)], "TraceItems", "TraceItems.cfg", ["InvC09"],
+    ck.trace("fill", "fill", ["-n", q(ck, 1500, 12000)], "TraceItems", "TraceItems.cfg", ["InvC09"],
              nontrivial=lambda e: len(e.get("tmpl", {}).get("vars", [])) > 0,
              key=lambda e: json.dumps([e.get("tmpl", {}).get("abs"), e.get("sigma")], sort_keys=True))
     ck.assumptions.append(ITEMS_NOTE)
@@ -284,7 +284,7 @@ def c10(ck):
     ck.replayed += len(ev)
     if ck.violations:
         return
-    ck.trace("ell", "ell", ["-n", q(ck, 1500, 30000)], "TraceEllipsis", "TraceEllipsis.cfg", ["InvC10"], agree=["InvAgreeC10"],
+    ck.trace("ell", "ell", ["-n", q(ck, 1500, 10000)], "TraceEllipsis", "TraceEllipsis.cfg", ["InvC10"], agree=["InvAgreeC10"],
              nontrivial=nt, key=key)
     ck.assumptions.append(ITEMS_NOTE)
 
@@ -292,7 +292,7 @@ def c10(ck):
 # ---------------------------------------------------------------------------------------------- C11 / C18
 def _history_checks(ck, inv):
     ck.model("Message", "Message", "Message_%s.cfg" % ck.tier, timeout=q(ck, 300, 3000))
-    ck.trace("hist", "hist", ["-n", q(ck, 150, 3000)], "TraceMessage", "TraceMessage.cfg", [inv],
+    ck.trace("hist", "hist", ["-n", q(ck, 150, 400)], "TraceMessage", "TraceMessage.cfg", [inv],
              nontrivial=lambda e: e.get("ev") == "step" and e.get("res", {}).get("outcome") in ("new", "same"),
              key=lambda e: json.dumps([e.get("op"), e.get("res"), e.get("dig")], sort_keys=True))
     ck.assumptions += ["digests are SHA-1 of the JSON of all observers of an object, computed by the harness",
@@ -351,7 +351,7 @@ def _sml_models(ck, which):
 def c04(ck):
     ck.rule.append("random expressible messages (3 of 4 cases) and messages of accepted plausible texts (1 of 4); non-trivial = message has an item; distinct by printed form")
     _sml_models(ck, ["layout"])
-    ck.trace("pp", "pp", ["-n", q(ck, 1200, 30000)], "TraceSml", "TraceSml.cfg", ["InvC04"], agree=["InvAgreeC04"],
+    ck.trace("pp", "pp", ["-n", q(ck, 1200, 12000)], "TraceSml", "TraceSml.cfg", ["InvC04"], agree=["InvAgreeC04"],
              nontrivial=lambda e: e.get("orig", {}).get("item", {}).get("f") != "none", key=SML_KEY)
     ck.assumptions.append(SML_NOTE)
 
@@ -382,11 +382,11 @@ def c06(ck):
     ck.rule.append("model: inputs <= 3 (quick) / 4 symbols over 26 classes x 2 start states; traces: token soups and plausible texts, lexer hook "
                    "streams, ~385 hostile inputs in a worker; non-trivial = text longer than 5 chars; distinct by text")
     _sml_models(ck, ["lexer"])
-    ck.trace("soup", "soup", ["-n", q(ck, 2500, 60000)], "TraceSml", "TraceSml.cfg", ["InvC06"], agree=["InvAgreeParse"],
+    ck.trace("soup", "soup", ["-n", q(ck, 2500, 25000)], "TraceSml", "TraceSml.cfg", ["InvC06"], agree=["InvAgreeParse"],
              nontrivial=lambda e: len(e.get("text", [])) > 5, key=SML_KEY)
     if ck.violations:
         return
-    ck.trace("lex", "lex", ["-n", q(ck, 1500, 30000)], "TraceSml", "TraceSml.cfg", [], agree=["InvAgreeLex"],
+    ck.trace("lex", "lex", ["-n", q(ck, 1500, 15000)], "TraceSml", "TraceSml.cfg", [], agree=["InvAgreeLex"],
              nontrivial=lambda e: len(e.get("text", [])) > 5, key=SML_KEY)
     ck.trace("hostile", "hostile", [], "TraceSml", "TraceSml.cfg", ["InvC06h"], worker=True,
              nontrivial=lambda e: e.get("ev") == "hostile", key=lambda e: json.dumps([e.get("ev"), e.get("head"), e.get("len")]))
@@ -405,7 +405,7 @@ def c08(ck):
     ck.rule.append("model: token lists <= 2 (quick) / 3 words from a 20-word vocabulary x 6 separators per gap; traces: seeded token lists "
                    "(valid, damaged, printed forms) x 2 layouts; non-trivial = at least 4 tokens; distinct by the pair of texts")
     _sml_models(ck, ["layout"])
-    ck.trace("layout", "layout", ["-n", q(ck, 1200, 30000)], "TraceSml", "TraceSml.cfg", ["InvC08"], agree=["InvAgreeC08"],
+    ck.trace("layout", "layout", ["-n", q(ck, 1200, 10000)], "TraceSml", "TraceSml.cfg", ["InvC08"], agree=["InvAgreeC08"],
              nontrivial=lambda e: len(e.get("r1", {}).get("text", [])) > 12, key=SML_KEY)
     ck.assumptions.append(SML_NOTE)
 
@@ -435,7 +435,7 @@ def c15(ck):
 def c19(ck):
     ck.rule.append("model: 8 texts ^ 2..3 x 7 separators; traces: 2-4 accepted texts joined by random separators; non-trivial = every event; distinct by whole text")
     _sml_models(ck, ["concat"])
-    ck.trace("concat", "concat", ["-n", q(ck, 600, 15000)], "TraceSml", "TraceSml.cfg", ["InvC19"], agree=["InvAgreeC19"],
+    ck.trace("concat", "concat", ["-n", q(ck, 600, 5000)], "TraceSml", "TraceSml.cfg", ["InvC19"], agree=["InvAgreeC19"],
              key=lambda e: json.dumps(e.get("whole", {}).get("text")))
     ck.assumptions.append(SML_NOTE)
 
